@@ -403,8 +403,10 @@ func (e *conditionExpander) emit(t antlr.Tree, subst map[string]string, depth in
 		}
 		if n.GetSymbol().GetTokenType() == QueryParserSTRING {
 			// the grammar allows a line break inside a string literal, the evaluator's
-			// lexer does not: hand it over as the equivalent escape
+			// lexer rejects a raw line feed and silently drops a raw carriage return:
+			// hand both over as the equivalent escapes
 			text = strings.ReplaceAll(text, "\n", "\\n")
+			text = strings.ReplaceAll(text, "\r", "\\r")
 		}
 		e.write(text)
 		return
